@@ -606,7 +606,7 @@ def r2_argv(desc):
     return None
 
 
-def round2(ctx, problems):
+def round2(ctx, problems, model=None):
     """c06_r2: (a) ZSTD_generateSequences (succeeding / failing) followed by a compression on the same context while the old
     outSeqs pages are PROT_NONE; (b) a sequence producer returning valid but worthless sequences (3-byte matches at offsets
     that cost 3 bytes, statistics that differ between the halves of every index range) so that the post-splitter and the
@@ -623,6 +623,8 @@ def round2(ctx, problems):
     ncases = dict(collector=0, producer=0)
     maxparts = 0
     maxsplits = 0
+    splitcases = []
+    maxover = 0
     for mode, rc, out, err in res:
         lines = out.split("\n")
         if rc not in (0, 1, 3) or not any(l.startswith(("DONE", "FAULT")) for l in lines):
@@ -634,6 +636,7 @@ def round2(ctx, problems):
                     ns = int(d["splits"])
                     maxsplits = max(maxsplits, ns)
                     ctx.count(("r2-splits", min(ns // 32, 7), ns >= 190), nontrivial=ns > 0)
+                    splitcases.append(d)
                     continue
                 ncases[mode] += 1
                 if mode == "collector":
@@ -644,6 +647,7 @@ def round2(ctx, problems):
                     maxparts = max(maxparts, parts)
                     ctx.count(("r2-producer", 0 if B < 1536 else 1 if B < 4096 else 2 if B < KB128 else 3, d["split"], d["tcbs"] != "0", d["mlmix"] != "0",
                                d["llmax"] != "0", d["lits"], d["chk"], raw == blocks, raw == 0, min(parts, 3) if parts < 100 else 4), nontrivial=True)
+                    maxover = max(maxover, int(d.get("maxOver", 0)))
                     if parts > 196:
                         problems.append(dict(kind="splitter-more-partitions-than-its-table", case=l[:400]))
             elif l.startswith("FAULT "):
@@ -668,8 +672,27 @@ def round2(ctx, problems):
         ctx.violation(dict(family="round2-" + fam, harness="c06_r2", **v), key=R2_KIND_KEYS.get(v["kind"], R2_KEYS.get(fam)),
                       what="capacity discipline / size bound violated on the real code: %s (%s) x%d :: %s" %
                            (v["kind"], ",".join(v.get("where", [])[:3]) if v.get("where") else v.get("msg", ""), v["count"], v["desc"][:160]))
+    # tie of the splitter model (coq/Mem/CompressSplit.v): the table the real ZSTD_deriveBlockSplits leaves vs derive_splits fed with the
+    # decisions of the real estimates; wire blocks of the source block vs emitted_partitions; the literals 196 / 300
+    if model is not None and splitcases:
+        lines = []
+        for d in splitcases:
+            lines.append("D %x %s" % (int(d["nbSeq"]), d["decisions"].rstrip("-").rstrip(",") or "-"))
+            lines.append("Q %x %x" % (int(d["splits"]), int(d["len"])))
+        mo = model.run(lines)
+        for k, d in enumerate(splitcases):
+            mt = mo[2 * k].split()
+            mtable = mt[1] if len(mt) > 1 else "-"
+            q = mo[2 * k + 1].split()
+            if (mtable or "-") != d["table"]:
+                problems.append(dict(kind="splitter-table-model-vs-real", nbSeq=d["nbSeq"], real=d["table"][:300], model=mtable[:300]))
+            if int(q[1], 16) != int(d["wire"]):
+                problems.append(dict(kind="splitter-partition-count-model-vs-real", real=d["wire"], model=int(q[1], 16), splits=d["splits"], len=d["len"]))
+            if int(q[4], 16) != int(d["limit"]) or int(q[5], 16) != int(d["minseq"]):
+                problems.append(dict(kind="splitter-literals", real=(d["limit"], d["minseq"]), model=(int(q[4], 16), int(q[5], 16))))
+        ctx.cov["traces_validated_against_impl"] += len(splitcases)
     ctx.cov["traces_validated_against_impl"] += ncases["collector"] + ncases["producer"]
-    ctx.notes["round2"] = dict(cases=ncases, max_partitions_of_one_block=maxparts, max_splits_derived=maxsplits)
+    ctx.notes["round2"] = dict(cases=ncases, max_partitions_of_one_block=maxparts, max_splits_derived=maxsplits, max_block_expansion=maxover, split_tables_tied=len(splitcases))
     if ncases["producer"]:
         ctx.sample(dict(family="round2", note="adversarial sequence producer: %d cases, at most %d partitions per source block" % (ncases["producer"], maxparts)))
 
@@ -783,7 +806,7 @@ def run(ctx):
     core.log("C06 phase inspectors: %.1f s" % (time.time() - t0)); t0 = time.time()
     units(ctx, model, problems)
     core.log("C06 phase units: %.1f s" % (time.time() - t0)); t0 = time.time()
-    round2(ctx, problems)
+    round2(ctx, problems, model)
     core.log("C06 phase round 2 (collector, sequence producer): %.1f s" % (time.time() - t0)); t0 = time.time()
 
     if ctx.tier == "thorough":
